@@ -291,6 +291,10 @@ func thorough(args []string) int {
 			r.Outcome = "detected"
 		case "silent":
 			r.Outcome = "missed"
+			if len(sv.Reporting) > 0 {
+				r.Outcome = "reported-by-another-property"
+				r.Reported = sv.Reporting
+			}
 		}
 		counts["seeded-"+r.Outcome]++
 		sres = append(sres, r)
